@@ -1129,7 +1129,7 @@ def run(ctx):
                 nontrivial.add(hash((tuple(map(tuple, sc.bursts)), tuple(sig))))
     ctx.coverage.update({
         "evaluations": len(bursts) + len(seqs), "distinct_nontrivial": len(nontrivial),
-        "rule": "seeded random scenarios: 2-4 users, 1-2 sessions each (+ optionally one session with a 2-slot send queue whose writer is stalled: slow-consumer eviction), 1-2 group/channel topics, a 'me' topic per user, optionally a p2p topic; BURST scenarios: 3-7 bursts in which ~70% of the sessions issue 1-3 requests each concurrently (sub/leave/unsub/pub/del-topic/del-user/disconnect) plus injected idle unloads, then a final burst re-subscribing to every group topic; CHANNEL scenarios (gen_chan_scn_c14c): one channel-enabled topic whose users are partly group subscribers (grpXXX) and partly readers (chnXXX), optionally a plain group topic, 1-2 sessions with a 2-slot send queue; requests carry the name form (as=grp|chn): attach under either name, {leave} / {leave unsub} under either name, slow-consumer phases (writers stalled, the owner publishes 3-4 messages, the third broadcast drops the session), disconnects, idle unloads, a final re-subscribe under both names; SEQUENTIAL scenarios: 6-18 single requests over group topics with and without channel functionality, {leave} under either name, a channel name for a plain group now and then (the model's alphabet), compared exactly with the extracted model (replies, Session.subs, Topic.sessions, isChanSub flags, loaded/stored, terminated); non-trivial = at least one request accepted (200); distinct by (requests, replies)",
+        "rule": "seeded random scenarios: 2-4 users, 1-2 sessions each (+ optionally one session with a 2-slot send queue whose writer is stalled: slow-consumer eviction), 1-2 group/channel topics, a 'me' topic per user, optionally a p2p topic; BURST scenarios: 3-7 bursts in which ~70% of the sessions issue 1-3 requests each concurrently (sub/leave/unsub/pub/del-topic/del-user/disconnect) plus injected idle unloads, then a final burst re-subscribing to every group topic; CHANNEL scenarios (gen_chan_scn_c14c): one channel-enabled topic whose users are partly group subscribers (grpXXX) and partly readers (chnXXX), optionally a plain group topic, 1-2 sessions with a 2-slot send queue; requests carry the name form (as=grp|chn): attach under either name, {leave} / {leave unsub} under either name, slow-consumer phases (writers stalled, the owner publishes 3-4 messages, the third broadcast drops the session), disconnects, idle unloads, a final re-subscribe under both names; SEQUENTIAL scenarios: 6-18 single requests over group topics with and without channel functionality, {leave} under either name, a channel name for a plain group now and then (the model's alphabet), compared exactly with the extracted model (replies, Session.subs, Topic.sessions, isChanSub flags, loaded/stored, terminated); FAILED-DELETE scenarios (round s14d, gen_fault_scn_c14d; also in the sequential scenarios: 45% of the owners' {del topic}): the owner's {del what=topic} meets a failing store.Topics.Delete (request suffix fault=TopicDelete: memverif.SetHook arms the fault for exactly that adapter call) on a loaded topic with sessions attached or on an unloaded one, alone in its burst, followed by 2-4 bursts of leave / unsubscribe / subscribe / publish / disconnect of the members, a second failed delete, a successful delete, a final re-subscription; MANY-TOPICS scenarios (gen_many_scn_c14d): one session attached to 66-78 group topics of one owner, its writer stalled, then {del user} of the owner / all topics deleted at once / both / the user's other session unsubscribes from all of them (evictUser), then the writer resumes and the session asks for four of the topics again; non-trivial = at least one request accepted (200); distinct by (requests, replies)",
         "burst_scenarios": len(bursts), "sequential_scenarios": len(seqs), "concurrent_bursts": conc, "requests_issued": nreq,
         "traces_validated_against_impl": compared, "correspondence_mismatches": len(mism),
         "monitor_failures": {k: len(v) for k, v in fails.items()},
@@ -1144,7 +1144,12 @@ def run(ctx):
                 "c14_symmetry_modulo_detach", "c14_attached_listed", "c14_leave_detaches_both_sides", "c14_evict_detaches_both_sides",
                 "c14_terminated_detached", "c14_online_restored",
                 "c14_deleted_stays_deleted", "c14_deleted_refuses", "c14_deleted_load_fails", "c14_deleted_not_running",
-                "c14_deleted_sessions_detached"],
+                "c14_deleted_sessions_detached",
+                "(all of the above now also over executions with any number of FAILED deletes: HubUnregFail is a step of `reach`)",
+                "c14_failed_delete_restores_status (status word: markPaused(true); Delete fails; markPaused(false) gives the word back, every word of a topic that is not paused)",
+                "c14_failed_delete_flags (every word: paused ends clear, marked-deleted untouched)", "c14_failed_delete_keeps_active", "c14_successful_delete_inactive",
+                "c14_failed_delete_status_of_instance", "c14_failed_delete_topic_as_before (hub table, instances, store rows, every queue but Hub.unreg unchanged; sessions differ in the outbox only)",
+                "c14_failed_delete_answered (500 unless the session is closing)", "c14_failed_delete_members_served"],
             "refuted by a witness schedule replayed on the real code": [
                 "c14_inflight_balance_statement (c14_inflight_balance_refuted, corpus/C14/01)",
                 "c14_reply_exactly_one_statement (c14_reply_exactly_one_refuted, corpus/C14/03)",
@@ -1157,7 +1162,9 @@ def run(ctx):
                 "c14_no_stuck_partial (reach_safe and no request in a queue of an instance whose goroutine is gone)"],
             "tested in support, NOT proved": [
                 "last clause of the property (shared data touched only under its lock / atomic): Go race detector on the burst scenarios, thorough tier",
-                "account deletion, p2p, 'me', per-user records (online counters, who is a group subscriber / a reader: 303 / 403 refusals of {sub}), presence, bounded channel capacities: burst driver + laws only"]},
+                "account deletion, p2p, 'me', per-user records (online counters, who is a group subscriber / a reader: 303 / 403 refusals of {sub}), presence, bounded channel capacities: burst driver + laws only",
+                "bounded Session.detach (64 slots): the model's s_detach ALWAYS appends the notice (unbounded queue); that the real code never drops a notice when the queue is full (the sender waits for the write loop) is what the many-topics scenarios test: law attach-symmetry after the stalled writer resumes with 66-78 notices outstanding",
+                "law topic-usable-after-failed-delete on the burst scenarios (the theorem c14_failed_delete_topic_as_before is about the model; the sequential scenarios tie it to the code: replies incl. the 500, attachments, loaded/stored and the paused / marked-deleted flags compared exactly)"]},
         "trusted_base": [
             "harness/overlay/server/zz_verif_c14_test.go: reader/writer goroutines standing in for the websocket loops (hdl_websock.go:39-145); quiescence = every goroutine parked in a receive/select + hub/topic queues empty + no request pending (runtime.Stack snapshot, as vQuiescent of the topic driver); a hang = every goroutine parked while a request is pending or a goroutine sits in a send/lock/semaphore, in 20 consecutive snapshots (no wall-clock guess); goroutines diagnosed as parked for ever are reported once and then ignored; direct field reads at quiescence",
             "harness/overlay/server/db/memverif: in-memory adapter (store contract modelled, not verified)",
